@@ -420,19 +420,61 @@ func buildView(p types.Package, lp *packages.Package, maxProbes int, maxLookups 
 	for _, k := range []string{"type", "const", "func"} {
 		addL(k, "NoSuchName")
 	}
-	// probes: the package clause and every top-level declaration of every file
+	// probes: positions all over every file - "the package whose file contains pos" speaks of the file's whole
+	// extent [FileStart, FileEnd], not of the syntax tree's (ast.File.Pos() is the `package` keyword, End() the end
+	// of the last declaration): the first byte (file doc, //go:build lines, `// +gengo:` tag comments above the
+	// package clause), every comment group, the package clause, every top-level declaration (start and last
+	// byte), the trailing comments behind the last declaration, the last byte and FileEnd, and byte offsets
+	// spread evenly over the file.  With a budget, the positions outside [File.Pos(), File.End()] come first.
+	type cand struct {
+		pos  token.Pos
+		prio int
+	}
+	var cands []cand
 	for _, f := range files {
-		ps := []token.Pos{f.Package}
-		for _, d := range f.Decls {
-			ps = append(ps, d.Pos())
+		start, end := f.FileStart, f.FileEnd
+		if !start.IsValid() || !end.IsValid() {
+			start, end = f.Pos(), f.End()
 		}
-		for _, pos := range ps {
-			if maxProbes > 0 && len(v.probes) >= maxProbes {
-				break
+		var ps []cand
+		ps = append(ps, cand{start, 0}, cand{f.Package, 0}, cand{f.Name.Pos(), 2})
+		if end > start {
+			ps = append(ps, cand{end - 1, 0})
+		}
+		ps = append(ps, cand{end, 1})
+		for i, cg := range f.Comments {
+			pr := 2
+			if cg.End() <= f.Package || cg.Pos() >= f.End() || i == 0 || i == len(f.Comments)-1 {
+				pr = 0 // above the package clause / behind the last declaration
 			}
-			v.probes = append(v.probes, pos)
-			v.data.Probes = append(v.data.Probes, filepath.Dir(p.FileSet().Position(pos).Filename))
+			if maxProbes <= 0 && pr != 0 && i > 2 && i < len(f.Comments)-3 {
+				continue // the sweep: not every comment of every std file
+			}
+			ps = append(ps, cand{cg.Pos(), pr}, cand{cg.End() - 1, pr + 1})
 		}
+		for _, d := range f.Decls {
+			ps = append(ps, cand{d.Pos(), 1}, cand{d.End() - 1, 3})
+		}
+		if n := int(end - start); n > 0 {
+			k := 16
+			for j := 1; j < k; j++ {
+				ps = append(ps, cand{start + token.Pos(j*n/k), 3})
+			}
+		}
+		cands = append(cands, ps...)
+	}
+	sort.SliceStable(cands, func(i, j int) bool { return cands[i].prio < cands[j].prio })
+	seenPos := map[token.Pos]bool{}
+	for _, c := range cands {
+		if maxProbes > 0 && len(v.probes) >= maxProbes {
+			break
+		}
+		if !c.pos.IsValid() || seenPos[c.pos] {
+			continue
+		}
+		seenPos[c.pos] = true
+		v.probes = append(v.probes, c.pos)
+		v.data.Probes = append(v.data.Probes, filepath.Dir(p.FileSet().Position(c.pos).Filename))
 	}
 	return v
 }
@@ -577,7 +619,7 @@ func observe(u *types.Universe, li *lightInfo, sweep bool, dir string) (*inputDa
 			}
 			continue
 		}
-		maxP, maxL := 24, 60
+		maxP, maxL := 48, 60
 		if sweep {
 			maxP, maxL = 0, 0
 		}
